@@ -14,6 +14,9 @@ then makes the plain synchronous calls g(arg) listed in "probes".  AST:
       same key are calls of one decorated function (same kind/afn/allow), which finds its statement list by its
       argument - recursion, a function called again by its callees, several activations in one yielded list.
       Without "fn" the node has a function object of its own.
+      "afn": "native" = the function is decorated with asyncio_fn=<the user's own `async def`>, which is the SAME statement
+      list written natively: {"y": call leaf} is `acc.append(await g.asyncio(arg))` (only single call leaves), {"sync": ..}
+      the same plain synchronous call, try/except/raise/return the same; it first suspends "delay" times.
   PX  {"id", "kind": fn|method, "ret": {"c": V} | {"t": FN}}          an @async_proxy() function
   STMT {"y": S, "site": n}            acc.append((yield S))
        {"try": [STMT], "exc": [STMT]} try: ... except Exception as e: acc.append({-1: id(e)}); ...
@@ -51,12 +54,16 @@ RULE = ("batch-free tree programs: 1..30 @asynq() functions / methods / plain (n
         "function, with try/except at some levels, bottoms that return or raise) - a function is re-entered while an outer "
         "activation of it is still running in about 30% of all cases (nesting 2..5+); THE CALLER GOES ON: in about half of the cases "
         "the awaiting coroutine makes 1-2 plain synchronous calls of @asynq()/@async_proxy() functions after the await (a third of "
-        "them of a function that is also used inside the awaited tree); distinct = different canonical AST; non-trivial = a nested "
+        "them of a function that is also used inside the awaited tree); EXPLICIT asyncio_fn WITH A BODY (130 directed cases + a third of the random "
+        "cases that have one): the `async def` given as asyncio_fn makes plain synchronous calls of @asynq()/@async_proxy() functions (caught or not, "
+        "allow_sync_call or not), awaits converted functions that do, awaits further explicit asyncio_fns, suspends 0-3 times first; it is yielded alone / in "
+        "list / tuple / dict / nested, after an earlier suspension of the parent, by functions, methods, twins, behind a proxy, or is itself the root "
+        "(awaited outside asyncio mode: its calls run); distinct = different canonical AST; non-trivial = a nested "
         "structure or an except clause that is reached statically")
 TRUSTED = ["the asyncio event loop (asyncio.run, ensure_future, asyncio.wait, contextvars copy per Task) is exercised, not modelled",
            "harness/props/c15.py emit: JSON AST -> Gallina resumption (CPS of the statement list); the same AST is interpreted "
            "by real generator closures in harness/impl/c15_impl.py"]
-EXPLANATION = ("Eleven Coq theorems (props/C15.v, closed under the global context) about Asyncio.v: drive/resolve/await_leaf/"
+EXPLANATION = ("Twelve Coq theorems (props/C15.v, closed under the global context) about Asyncio.v: drive/resolve/await_leaf/"
                "call_asyncio model decorators.py:109-140,170-230,290-308 and asynq_to_async.py:24-90; eval/unwrap model what the "
                "scheduler computes for a batch-free tree program; values include exception instances used as data (VExc: a member "
                "that returned an exception object succeeded - exception_value_is_data).  Programs are HOAS resumptions (continuations are arbitrary "
@@ -66,6 +73,9 @@ EXPLANATION = ("Eleven Coq theorems (props/C15.v, closed under the global contex
                "run for every program, whatever function its activations belong to - recursion, re-entrance through callees, parallel "
                "activations - and no run touches an object that existed before; caller_continues: after the await a plain "
                "synchronous call of the caller runs its callee and delivers the callee's own outcome).  "
+               "An explicit asyncio_fn is a program of its own (AfNative q) driven WITHOUT AsyncioMode in the flag of its awaiter "
+               "(explicit_asyncio_fn_in_subtree: below a converted coroutine - alone or inside any structure - its body sees the flag on and its plain "
+               "synchronous calls are refused; awaited outside asyncio mode they run).  "
                "Each generated case is run as root(arg) and as `await root.asyncio(arg)` under asyncio.run in the pure and the "
                "Cython build (activations of one function share one real decorated object, which looks its body up by its argument); "
                "both outcomes, the flag after the await, the outcome/flag/events of every plain synchronous call the caller makes "
@@ -77,7 +87,8 @@ ASSUMPTIONS = [
     "runs on a copy of the context taken at ensure_future; tasks of a batch-free program do not influence each other",
     "program class per DESIGN 5.21 row C15: tasks, ConstFuture, None, nested tuple/list/dict, raise, try/except Exception, return; "
     "no result(), ErrorFuture, lazy Future, batches, shared handles; an @async_proxy() function returns a future (does not raise)",
-    "an explicit asyncio_fn is assumed to agree with the asynq function (hypothesis `agree` of the theorems; built so by the generator)",
+    "an explicit asyncio_fn is assumed to agree with the asynq function (hypothesis `agree` of asyncio_eq_seq: its body, read as an asynq program, "
+    "computes what the asynq function computes; built so by the generator - the same statement list); it awaits single calls (no gather of its own)",
     "raised exceptions are Exception subclasses (BaseException subclasses occur only as values, never raised)",
     "the caller awaits one root at a time (two top-level .asyncio() calls of the same function running concurrently from contexts "
     "with the flag off are not generated); proxies are not shared between activations",
@@ -152,24 +163,27 @@ class _Emit:
             return "(VExc (%d)%%Z)" % (v["x"] if "x" in v else v["bx"])
         return "VNone" if v is None else "(VInt (%d)%%Z)" % v
 
-    def cfg(self, fn):
+    def call(self, fn, px=None):
+        """LCall / LPxCall of one activation.  An explicit (native) asyncio_fn is the user's own coroutine with the
+        SAME statement list (a yield of a call leaf = `await g.asyncio(arg)`): AfNative <body>, the body bound once."""
         kind = {"gen": "KGen", "plain": "KPlain", "method": "KMethod"}[fn["kind"]]
+        head = "LCall" if px is None else "LPxCall (%d)%%Z" % px
+        body = self.body(fn["body"])
         if fn["afn"] == "native":
-            a = "(AfNative (out_of %s))" % self.body(fn["body"])
-        else:
-            a = {"none": "AfNone", "twin": "AfTwin"}[fn["afn"]]
-        return "(mkcfg (%d)%%Z %s %s)" % (fn["id"], kind, a)
+            i = self.fresh()
+            return "(let nb%d := %s in %s (mkcfg (%d)%%Z %s (AfNative nb%d)) nb%d)" % (i, body, head, fn["id"], kind, i, i)
+        a = {"none": "AfNone", "twin": "AfTwin"}[fn["afn"]]
+        return "(%s (mkcfg (%d)%%Z %s %s) %s)" % (head, fn["id"], kind, a, body)
 
     def leaf(self, s):
         if "c" in s:
             return "(LConst %s)" % self.val(s["c"])
         if "t" in s:
-            return "(LCall %s %s)" % (self.cfg(s["t"]), self.body(s["t"]["body"]))
+            return self.call(s["t"])
         px = s["px"]
         if "c" in px["ret"]:
             return "(LPxConst (%d)%%Z %s)" % (px["id"], self.val(px["ret"]["c"]))
-        t = px["ret"]["t"]
-        return "(LPxCall (%d)%%Z %s %s)" % (px["id"], self.cfg(t), self.body(t["body"]))
+        return self.call(px["ret"]["t"], px["id"])
 
     def struct(self, s):
         if s is None:
@@ -562,6 +576,222 @@ def gen_rec_case(rng):
     return c
 
 
+# ---- the explicit-asyncio_fn dimension (round s8): an explicit asyncio_fn is a coroutine with a BODY of its own - it makes
+# ---- plain synchronous calls, awaits other functions, looks at the flag - and it sits somewhere in the subtree of a
+# ---- running .asyncio() computation (or is awaited from outside asyncio mode)
+def _max_site(c):
+    return max([st["site"] for n in all_nodes(c) if "body" in n for st in walk_stmts(n["body"]) if "y" in st] or [0])
+
+
+def _wrap_sync(rng, callee):
+    st = {"sync": callee}
+    return {"try": [st], "exc": []} if rng.random() < 0.65 else st
+
+
+def add_native_bodies(c, rng):
+    """post-hoc: the explicit asyncio_fns of a random case (yield-free bodies so far) get plain synchronous calls and
+    awaits of further functions"""
+    g = _Gen(rng, False, False, 3, rng.choice([0, 0, 0.3]))
+    g.nid = _max_id(c)
+    g.neid = 800
+    site = _max_site(c)
+    changed = False
+    for n in list(sub_fns(c["root"])):
+        if n.get("afn") != "native" or rng.random() < 0.35:
+            continue
+        changed = True
+        x = rng.random()
+        pos = rng.randrange(0, len(n["body"]) + 1)
+        if x < 0.6 or n["kind"] == "plain":
+            n["body"].insert(pos, _wrap_sync(rng, g.call_leaf(0, callee=True)))
+        else:
+            # `await g.asyncio(arg)`: g converted, with a plain synchronous call of its own half of the time
+            g.nid += 1
+            cid = g.nid
+            body = [_wrap_sync(rng, g.call_leaf(0, callee=True))] if rng.random() < 0.5 else g.leaf_body()
+            child = {"id": cid, "kind": rng.choice(["gen", "method"]), "afn": "none", "delay": 0, "allow": False, "body": body}
+            site += 1
+            n["body"].insert(pos, {"y": {"t": child}, "site": site})
+            if rng.random() < 0.3:
+                n["body"].insert(rng.randrange(0, len(n["body"]) + 1), _wrap_sync(rng, g.call_leaf(0, callee=True)))
+    if changed:
+        c["meta"]["native_bodies"] = True
+    return changed
+
+
+def gen_native_case(rng):
+    """directed: converted parents (function / method / twin) that yield children with an explicit asyncio_fn - alone, in
+    list / tuple / dict, nested, after a suspension - whose coroutine bodies call @asynq() functions synchronously, await
+    converted functions that do, await further explicit asyncio_fns; roots that are themselves explicit asyncio_fns or
+    proxies (awaited outside asyncio mode: the calls run)"""
+    st = {"id": 0, "site": 0, "eid": 0, "budget": rng.choice([3, 4, 6, 9])}
+    xp = rng.choice([0, 0, 0, 0.3])
+
+    def nid():
+        st["id"] += 1
+        return st["id"]
+
+    def site():
+        st["site"] += 1
+        return st["site"]
+
+    def eid():
+        st["eid"] += 1
+        return 500 + st["eid"]
+
+    def val():
+        if xp and rng.random() < xp:
+            return {"x": eid()}
+        return None if rng.random() < 0.15 else rng.randrange(0, 40)
+
+    def callee():
+        x = rng.random()
+        body = [] if x < 0.3 else [{"push": val()}] if x < 0.6 else [{"retv": [val()]}] if x < 0.8 else [{"raise": eid()}]
+        if rng.random() < 0.15:
+            return {"px": {"id": nid(), "kind": rng.choice(["fn", "method"]), "ret": {"c": val()}}}
+        return {"t": {"id": nid(), "kind": rng.choice(["gen", "gen", "method", "plain"]), "afn": "none", "delay": 0,
+                      "allow": rng.random() < 0.15, "body": body}}
+
+    def ending(body):
+        x = rng.random()
+        if x < 0.2:
+            body.append({"retlast": 1})
+        elif x < 0.3:
+            body.append({"retv": [val()]})
+        elif x < 0.36:
+            body.append({"raise": eid()})
+        return body
+
+    def native(level):
+        st["budget"] -= 1
+        node = {"id": nid(), "kind": "gen", "afn": "native", "delay": rng.choice([0, 0, 1, 2, 3]), "allow": False, "body": []}
+        body = []
+        what = rng.choice(["sync", "sync", "sync", "sync2", "flag", "await-conv", "await-conv", "await-native"])
+        if level >= 3 or st["budget"] <= 0:
+            what = rng.choice(["sync", "sync", "flag"])
+        if what == "flag":
+            body = [{"push": val()}] if rng.random() < 0.5 else []
+        elif what == "sync":
+            body = [_wrap_sync(rng, callee())]
+            if rng.random() < 0.3:
+                body.insert(rng.randrange(2), {"push": val()})
+        elif what == "sync2":
+            body = [_wrap_sync(rng, callee()), _wrap_sync(rng, callee())]
+        else:
+            child = conv(level + 1, small=True) if what == "await-conv" else native(level + 1)
+            aw = {"y": {"t": child}, "site": site()}
+            if rng.random() < 0.3:
+                aw = {"try": [aw], "exc": []}
+            body = [aw]
+            if rng.random() < 0.5:
+                body.insert(rng.randrange(2), _wrap_sync(rng, callee()))
+        node["body"] = ending(body)
+        has_y = any("y" in x for x in walk_stmts(node["body"]))
+        node["kind"] = rng.choice(["gen", "gen", "method"] if has_y else ["gen", "gen", "method", "plain"])
+        return node
+
+    def conv(level, small=False):
+        st["budget"] -= 1
+        node = {"id": nid(), "kind": rng.choice(["gen", "gen", "method"]), "afn": rng.choice(["none", "none", "none", "twin"]),
+                "delay": 0, "allow": False, "body": []}
+        body = []
+        if small or level >= 3 or st["budget"] <= 0:
+            x = rng.random()
+            body = [_wrap_sync(rng, callee())] if x < 0.6 else [{"y": {"t": native(level + 1)}, "site": site()}] if (x < 0.85 and level < 3) else []
+            node["body"] = ending(body)
+            return node
+        if rng.random() < 0.3:
+            # one step of the loop (and, with a delay, a real suspension) before the interesting yield
+            pre = {"t": native(3)} if rng.random() < 0.5 else {"c": val()}
+            body.append({"y": pre, "site": site()})
+        if rng.random() < 0.15:
+            body.append(_wrap_sync(rng, callee()))
+        for _ in range(rng.choice([1, 1, 1, 2])):
+            def child():
+                x = rng.random()
+                return {"t": native(level + 1)} if x < 0.7 else {"t": conv(level + 1)} if x < 0.85 else {"c": val()}
+            link = rng.choice(["bare", "bare", "list", "tuple", "dict", "nested", "two"])
+            if link == "bare":
+                y = {"t": native(level + 1)}
+            elif link == "list":
+                y = {"list": [child()] + ([None] if rng.random() < 0.3 else [])}
+            elif link == "tuple":
+                y = {"tuple": ([{"c": val()}] if rng.random() < 0.4 else []) + [child()]}
+            elif link == "dict":
+                y = {"dict": [[rng.randrange(0, 5), child()], [7, {"list": [child()] if rng.random() < 0.5 else []}]]}
+            elif link == "nested":
+                y = {"dict": [[0, {"list": [child(), None]}], [1, {"tuple": [{"c": val()}, child()]}]]}
+            else:
+                y = {rng.choice(["tuple", "list"]): [child(), child()]}
+            stmt = {"y": y, "site": site()}
+            if rng.random() < 0.35:
+                stmt = {"try": [stmt], "exc": [{"y": {"c": val()}, "site": site()}] if rng.random() < 0.4 else []}
+                if rng.random() < 0.3:
+                    stmt["keep"] = True
+            body.append(stmt)
+        node["body"] = ending(body)
+        return node
+
+    x = rng.random()
+    if x < 0.72:
+        root = {"t": conv(0)}
+    elif x < 0.86:
+        root = {"t": native(0)}
+    elif x < 0.95:
+        root = {"px": {"id": nid(), "kind": rng.choice(["fn", "method"]), "ret": {"t": native(1) if rng.random() < 0.6 else conv(1)}}}
+    else:
+        root = {"t": conv(0, small=True)}
+    c = mkcase(root, rng.random() < 0.15, (), {"native": True})
+    if rng.random() < 0.3:
+        add_probes(c, rng, 1)
+    if rng.random() < 0.2:
+        share_functions(c, rng)
+    return c
+
+
+def _exhaustive_native():
+    """thorough tier: parent kind x link x position of the suspension x what the explicit asyncio_fn does x delay x flag"""
+    cases = []
+    for pkind in ("gen", "method"):
+        for pafn in ("none", "twin"):
+            for link in ("bare", "list", "tuple", "dict", "nested", "via-native", "via-conv", "via-px"):
+                for what in ("sync", "sync-caught", "flag", "await-conv-sync", "sync-allow"):
+                    for ckind in ("gen", "method", "plain"):
+                        for delay in (0, 2):
+                            for pre in (False, True):
+                                for mode0 in (False, True):
+                                    if what == "await-conv-sync" and ckind == "plain":
+                                        continue
+                                    ids = iter(range(1, 100))
+                                    sites = iter(range(1, 100))
+                                    rid = next(ids)
+                                    cal = {"t": _fn(next(ids), [{"push": 1}], "gen", allow=(what == "sync-allow"))}
+                                    if what in ("sync", "sync-allow"):
+                                        cb = [{"sync": cal}]
+                                    elif what == "sync-caught":
+                                        cb = [{"try": [{"sync": cal}], "exc": []}]
+                                    elif what == "flag":
+                                        cb = [{"push": 2}]
+                                    else:
+                                        cb = [{"y": {"t": _fn(next(ids), [{"try": [{"sync": cal}], "exc": []}])}, "site": next(sites)}]
+                                    child = {"t": _fn(next(ids), cb, ckind, "native", delay)}
+                                    if link == "via-native":
+                                        child = {"t": _fn(next(ids), [{"y": child, "site": next(sites)}], "gen", "native", 1)}
+                                    elif link == "via-conv":
+                                        child = {"t": _fn(next(ids), [{"y": {"list": [child]}, "site": next(sites)}])}
+                                    elif link == "via-px":
+                                        child = {"px": {"id": next(ids), "kind": "fn", "ret": child}}
+                                    y = (child if link in ("bare", "via-native", "via-conv", "via-px") else {"list": [child, None]} if link == "list"
+                                         else {"tuple": [{"c": 1}, child]} if link == "tuple" else {"dict": [[3, child]]} if link == "dict"
+                                         else {"dict": [[0, {"list": [child, None]}], [1, {"tuple": [{"c": 2}]}]]})
+                                    body = [{"try": [{"y": y, "site": next(sites)}], "exc": []}]
+                                    if pre:
+                                        body.insert(0, {"y": {"t": _fn(next(ids), [], "gen", "native", 1)}, "site": next(sites)})
+                                    root = {"t": _fn(rid, body, pkind, pafn)}
+                                    cases.append(mkcase(root, mode0, (), {"exhaustive": "native"}))
+    return cases
+
+
 def _exhaustive_rec():
     """thorough tier: every small recursion shape - depth x link x bottom x where it is caught x 1|2 functions x kind x flag"""
     cases = []
@@ -657,8 +887,15 @@ def gen_cases(rng, tier):
             share_functions(c, rng, eager=x > 0.93)
     nrec = 140 if tier == "quick" else 3000
     cs = cs + [gen_rec_case(rng) for _ in range(nrec)]
+    # (draws of the explicit-asyncio_fn dimension come last: the cases above are the same as before it existed, except
+    # that a third of those with an explicit asyncio_fn get coroutine bodies that do something)
+    for c in cs[:n]:
+        if not c["probes"] and not any("fn" in nd for nd in all_nodes(c)) and rng.random() < 0.45:
+            add_native_bodies(c, rng)
+    nnat = 130 if tier == "quick" else 3000
+    cs = cs + [gen_native_case(rng) for _ in range(nnat)]
     if tier != "quick":
-        cs = _exhaustive_small() + _exhaustive_rec() + cs
+        cs = _exhaustive_small() + _exhaustive_rec() + _exhaustive_native() + cs
     return [c for c in cs if _valid(c)]
 
 
@@ -743,6 +980,24 @@ CORPUS = [
           probes=[{"t": _fn(6, [], "method")}, {"px": {"id": 7, "kind": "fn", "ret": {"c": 4}}}]),
     _case({"t": _rfn(1, "f", [{"y": {"t": _rfn(2, "f", [{"y": {"t": _rfn(3, "f", [])}, "site": 2}])}, "site": 1}])}, mode0=True,
           probes=[{"t": _fn(4, [{"push": 1}])}]),
+    # ---- explicit asyncio_fns with a body, in the subtree of a running coroutine (round s8)
+    # minimal: parent yields (alone) a child whose `async def` calls leaf(x) synchronously and reports what happened
+    _case({"t": _fn(1, [{"y": {"t": _fn(2, [{"try": [{"sync": {"t": _fn(3, [{"push": 1}])}}], "exc": []}], "gen", "native")}, "site": 1}])}),
+    # a method parent, one suspension first, then a dict of a list and a tuple: such children as Tasks, next to a converted
+    # sibling; one child lets the RuntimeError escape (caught by the parent), one suspends twice before it makes the call
+    _case({"t": _fn(1, [{"y": {"t": _fn(2, [], "gen", "native", 2)}, "site": 1},
+                        {"try": [{"y": {"dict": [[0, {"list": [{"t": _fn(3, [{"try": [{"sync": {"t": _fn(4, [], "method")}}], "exc": []}],
+                                                                           "method", "native", 2)}, None]}],
+                                                 [1, {"tuple": [{"t": _fn(5, [{"push": 7}])},
+                                                                {"t": _fn(6, [{"sync": {"t": _fn(7, [{"retv": [3]}], "plain")}}], "plain", "native")}]}]]},
+                                  "site": 2}], "exc": []}], "method")}),
+    # the root itself is an explicit asyncio_fn awaited from outside asyncio mode: its own call runs (flag off there); the
+    # converted function it awaits switches the mode on for its subtree - the call made by an explicit asyncio_fn awaited
+    # there (inside a list) is refused; afterwards the flag is off again and the root's second call runs
+    _case({"t": _fn(1, [{"sync": {"t": _fn(2, [{"push": 1}])}},
+                        {"y": {"t": _fn(3, [{"y": {"list": [{"t": _fn(4, [{"try": [{"sync": {"t": _fn(5, [])}}], "exc": []}], "gen", "native", 1)}]},
+                                             "site": 2}])}, "site": 1},
+                        {"sync": {"t": _fn(6, [{"push": 2}], "method")}}], "gen", "native")}),
 ]
 
 
@@ -808,7 +1063,9 @@ def distribution(cases):
          "with_try": 0, "with_failure": 0, "with_proxy": 0, "with_exception_value": 0,
          "collection_member_completes_with_exception_value": 0, "bare_value_return": 0,
          "shared_function_object": 0, "function_reentered_while_running": {}, "with_probe_after_await": 0,
-         "probe_calls_function_used_in_tree": 0}
+         "probe_calls_function_used_in_tree": 0,
+         "explicit_asyncio_fn_with_a_body_that_calls_or_awaits": 0, "explicit_asyncio_fn_sync_call_where_flag_must_be_on": {},
+         "explicit_asyncio_fn_sync_call_outside_asyncio_mode": 0, "explicit_asyncio_fn_awaits_a_function": 0}
 
     def sdepth(s):
         if s is None or not any(k in s for k in ("tuple", "list", "dict")):
@@ -850,6 +1107,25 @@ def distribution(cases):
             d["function_reentered_while_running"][str(min(nest, 5))] = d["function_reentered_while_running"].get(str(min(nest, 5)), 0) + 1
         d["with_probe_after_await"] += 1 if c.get("probes") else 0
         d["probe_calls_function_used_in_tree"] += psh
+        exp = flag_expectations(c)
+        nb = aw = off = False
+        for nd in nodes:
+            if nd.get("afn") != "native":
+                continue
+            sts = list(walk_stmts(nd["body"]))
+            aw = aw or any("y" in st for st in sts)
+            if any("sync" in st or "y" in st for st in sts):
+                nb = True
+            if any("sync" in st for st in sts) and nd["id"] in exp:
+                on, how, _ = exp[nd["id"]]
+                if on:
+                    key = how.split("-by-")[0]
+                    d["explicit_asyncio_fn_sync_call_where_flag_must_be_on"][key] = d["explicit_asyncio_fn_sync_call_where_flag_must_be_on"].get(key, 0) + 1
+                else:
+                    off = True
+        d["explicit_asyncio_fn_with_a_body_that_calls_or_awaits"] += nb
+        d["explicit_asyncio_fn_awaits_a_function"] += aw
+        d["explicit_asyncio_fn_sync_call_outside_asyncio_mode"] += off
         d["bare_value_return"] += any("retv" in st or "retlast" in st for nd in nodes if "body" in nd for st in walk_stmts(nd["body"]))
     return d
 
@@ -941,6 +1217,38 @@ def _call_id(x):
     if "px" in x and "t" in x["px"]["ret"]:
         return x["px"]["ret"]["t"]["id"]
     return None
+
+
+def _skind(s):
+    return "bare" if (s is None or not any(k in s for k in ("tuple", "list", "dict"))) else next(k for k in ("tuple", "list", "dict") if k in s)
+
+
+def flag_expectations(c):
+    """From the statement alone: what is_asyncio_mode() is inside each activation reachable from the root through
+    yields / awaits when the root is awaited via .asyncio() from a context whose flag is mode0.  The flag is on in the
+    whole subtree of a running converted coroutine; an explicit asyncio_fn does not switch it on itself, so it sees the
+    flag of whoever awaits it; a proxy's own function runs converted, what it returns is awaited by the proxy's awaiter.
+    {activation id: (flag inside, how it is reached, what it is)}"""
+    exp = {}
+
+    def visit(leaf, ctx, how):
+        n = leaf_node(leaf)
+        if "ret" in n:
+            exp[n["id"]] = (True, how, "proxy")
+            if "t" in n["ret"]:
+                visit(n["ret"], ctx, how + "-through-a-proxy")
+            return
+        native = n["afn"] == "native"
+        inside = ctx if native else True
+        what = "explicit-asyncio_fn" if native else n["kind"]
+        exp[n["id"]] = (inside, how, what)
+        for st in walk_stmts(n["body"]):
+            if "y" in st:
+                for x in walk_struct(st["y"]):
+                    if x is not None and ("t" in x or "px" in x):
+                        visit(x, inside, ("awaited-by-%s" % what) if native else "yielded-%s-by-%s" % (_skind(st["y"]), what))
+    visit(c["root"], bool(c["mode0"]), "root")
+    return exp
 
 
 def monitors(c, io, build):
@@ -1068,8 +1376,12 @@ def monitors(c, io, build):
                        msg="is_asyncio_mode() was %s/%s around the plain root(args) call" % (seq["flag_before"], seq["flag_after"])))
     # the flag is on inside every converted body (that is what makes clause 7 apply there)
     native = {n["id"] for n in sub_fns(c["root"]) if n.get("afn") == "native"}
+    exp = flag_expectations(c)
+    # (targets of plain synchronous calls are not in the awaited subtree: refused inside asyncio mode, run by the scheduler
+    # when an explicit asyncio_fn awaited from outside asyncio mode makes the call - clause 7 below)
+    insubtree = set(exp) if sync else {n["id"] for n in sub_fns(c["root"])}
     for ev in aio["log"]:
-        if ev[0] == "body" and ev[1] not in native and ev[2] != "true":
+        if ev[0] == "body" and ev[1] not in native and ev[1] in insubtree and ev[2] != "true":
             fs.append(dict(clause="mode-confined", site="flag-off-inside-converted-body",
                            msg="body of call %s ran under .asyncio() with is_asyncio_mode() false" % ev[1]))
     for ev in seq["log"]:
@@ -1081,7 +1393,7 @@ def monitors(c, io, build):
     shared, nest, _ = sharing_profile(c)
     re_tag = "re-entered-function" if nest >= 2 else "shared-function" if shared else "distinct-functions"
     for ev in aio["log"]:
-        if ev[0] == "resume" and len(ev) > 4 and ev[1] not in native and ev[4] != "true":
+        if ev[0] == "resume" and len(ev) > 4 and ev[1] not in native and ev[1] in insubtree and ev[4] != "true":
             fs.append(dict(clause="mode-confined", site="flag-off-inside-converted-body-after-a-yield:%s" % re_tag,
                            msg="call %s was resumed at yield site %s under .asyncio() with is_asyncio_mode() false" % (ev[1], ev[2])))
             break
@@ -1090,6 +1402,30 @@ def monitors(c, io, build):
             fs.append(dict(clause="mode-confined", site="flag-on-inside-scheduler-body-after-a-yield",
                            msg="call %s was resumed at yield site %s on the scheduler with is_asyncio_mode() true" % (ev[1], ev[2])))
             break
+    # the flag covers the whole SUBTREE of the running coroutine: a child that comes with an explicit asyncio_fn (which does
+    # not enter AsyncioMode itself) sees it on when it is awaited below a converted coroutine - alone or as a member of a
+    # tuple / list / dict, at its start and after each of its own awaits - and off when it is awaited outside asyncio mode
+    seen_nat = set()
+    for ev in aio["log"]:
+        if ev[0] == "body" and ev[1] in native and ev[1] in exp:
+            when = "at-its-start"
+            got = ev[2]
+        elif ev[0] == "resume" and len(ev) > 4 and ev[1] in native and ev[1] in exp:
+            when = "after-an-await"
+            got = ev[4]
+        else:
+            continue
+        want, how, _ = exp[ev[1]]
+        if got != ("true" if want else "false") and (ev[1], when) not in seen_nat:
+            seen_nat.add((ev[1], when))
+            if want:
+                fs.append(dict(clause="mode-confined", site="flag-off-inside-explicit-asyncio_fn-below-a-running-coroutine:%s:%s" % (how, when),
+                               msg="the explicit asyncio_fn of call %s (%s) ran in the subtree of a running .asyncio() coroutine with "
+                                   "is_asyncio_mode() false %s" % (ev[1], how, when)))
+            else:
+                fs.append(dict(clause="mode-confined", site="flag-on-inside-explicit-asyncio_fn-outside-asyncio-mode:%s:%s" % (how, when),
+                               msg="the explicit asyncio_fn of call %s (%s) was awaited from a context outside asyncio mode but saw "
+                                   "is_asyncio_mode() true %s" % (ev[1], how, when)))
     # the caller keeps running after the await: with the flag off before the await, asyncio mode is over - a plain
     # synchronous call of an @asynq() function runs (no RuntimeError); with the flag on before, it is still refused
     for k, pr in enumerate(aio.get("probes", [])):
@@ -1118,36 +1454,49 @@ def monitors(c, io, build):
                                msg="the caller is inside asyncio mode; its plain synchronous call of call %s returned without RuntimeError "
                                    "although allow_sync_call is off" % node["id"]))
 
-    # (7) while the flag is on, a plain synchronous call of an @asynq() function raises RuntimeError
+    # (7) while the flag is on, a plain synchronous call of an @asynq() function raises RuntimeError - at every point of the
+    # subtree of the running coroutine: in converted bodies and in the coroutine bodies of explicit asyncio_fns awaited
+    # there.  Where the flag is legitimately off (an explicit asyncio_fn awaited from outside asyncio mode) the call runs.
     if sync:
-        nsync_static = 0
-        allow_ids = set()
+        nodes = {n["id"]: n for n in sub_fns(c["root"])}
+        owner_of = {}
         for n in sub_fns(c["root"]):
             for st in walk_stmts(n.get("body", [])):
                 if "sync" in st:
-                    nsync_static += 1
-                    if leaf_node(st["sync"]).get("allow"):
-                        allow_ids.add(leaf_node(st["sync"])["id"])
-        callee_ids = set()
-        for n in sub_fns(c["root"]):
-            for st in walk_stmts(n.get("body", [])):
-                if "sync" in st:
-                    callee_ids.update(m["id"] for m in sub_fns(st["sync"]))
+                    for m in sub_fns(st["sync"]):
+                        owner_of[m["id"]] = n["id"]
         for ev in aio["log"]:
-            if ev[0] == "sync" and ev[1] == "SRan":
-                fs.append(dict(clause="sync-call-refused", site="sync-call-ran-in-asyncio-mode",
-                               msg="a plain synchronous call of an @asynq() function ran its callee inside asyncio mode"))
-            if ev[0] == "sync" and ev[1] == "SOther":
-                fs.append(dict(clause="sync-call-refused", site="sync-call-raised-other-exception",
-                               msg="a plain synchronous call inside asyncio mode raised something other than RuntimeError"))
-            if ev[0] == "body" and ev[1] in callee_ids:
-                fs.append(dict(clause="sync-call-refused", site="callee-body-ran-in-asyncio-mode",
-                               msg="body of call %s (target of a plain synchronous call) ran under the event loop" % ev[1]))
-        if not allow_ids:
-            for ev in aio["log"]:
-                if ev[0] == "sync" and ev[1] == "SAllowed":
-                    fs.append(dict(clause="sync-call-refused", site="no-RuntimeError-without-allow_sync_call",
-                                   msg="a plain synchronous call inside asyncio mode returned without RuntimeError although allow_sync_call is off"))
+            if ev[0] == "sync":
+                me = ev[2] if len(ev) > 2 else None
+                callee = nodes.get(ev[3]) if len(ev) > 3 else None
+                if me not in exp:
+                    continue
+                on, how, what = exp[me]
+                where = ":inside-explicit-asyncio_fn:%s" % how if what == "explicit-asyncio_fn" else ""
+                if on:
+                    if ev[1] == "SRan":
+                        fs.append(dict(clause="sync-call-refused", site="sync-call-ran-in-asyncio-mode" + where,
+                                       msg="call %s (%s, %s) is in the subtree of a running .asyncio() coroutine; its plain synchronous call of "
+                                           "an @asynq() function (call %s) ran the callee on the scheduler instead of raising RuntimeError" % (
+                                               me, what, how, ev[3] if len(ev) > 3 else "?")))
+                    elif ev[1] == "SOther":
+                        fs.append(dict(clause="sync-call-refused", site="sync-call-raised-other-exception" + where,
+                                       msg="a plain synchronous call inside asyncio mode (made by call %s) raised something other than RuntimeError" % me))
+                    elif ev[1] == "SAllowed" and not (callee or {}).get("allow"):
+                        fs.append(dict(clause="sync-call-refused", site="no-RuntimeError-without-allow_sync_call" + where,
+                                       msg="a plain synchronous call inside asyncio mode (made by call %s) returned without RuntimeError "
+                                           "although allow_sync_call is off" % me))
+                elif ev[1] != "SRan":
+                    fs.append(dict(clause="mode-confined", site="plain-synchronous-call-%s-outside-asyncio-mode%s" % (
+                        {"SRefused": "refused", "SAllowed": "skipped"}.get(ev[1], ev[1]), where),
+                                   msg="call %s (%s, %s) runs outside asyncio mode, but its plain synchronous call did not run the callee: %s" % (
+                                       me, what, how, ev[1])))
+            if ev[0] == "body" and ev[1] in owner_of and exp.get(owner_of[ev[1]], (False,))[0]:
+                on, how, what = exp[owner_of[ev[1]]]
+                where = ":inside-explicit-asyncio_fn:%s" % how if what == "explicit-asyncio_fn" else ""
+                fs.append(dict(clause="sync-call-refused", site="callee-body-ran-in-asyncio-mode" + where,
+                               msg="body of call %s (target of a plain synchronous call made by call %s inside asyncio mode) ran under the event loop" % (
+                                   ev[1], owner_of[ev[1]])))
     return fs
 
 
@@ -1313,10 +1662,21 @@ def _valid(c):
             sig = (n["kind"], n["afn"], bool(n.get("allow")))
             if sigs.setdefault(n["fn"], sig) != sig:
                 return False
+    sites = set()
     for n in all_nodes(c):
-        if "body" in n and (n["kind"] == "plain" or n["afn"] == "native"):
-            if any("y" in st for st in walk_stmts(n["body"])):
-                return False
-            if n["afn"] == "native" and any("sync" in st for st in walk_stmts(n["body"])):
-                return False
+        if "body" not in n:
+            continue
+        for st in walk_stmts(n["body"]):
+            if "y" in st:
+                if st["site"] in sites:
+                    return False
+                sites.add(st["site"])
+        if n["kind"] == "plain" and any("y" in st for st in walk_stmts(n["body"])):
+            return False
+        if n["afn"] == "native":
+            # the explicit asyncio_fn is the same statement list written as an `async def`: what it awaits is
+            # `g.asyncio(arg)` of a single call leaf (the asynq body yields g.asynq(arg) there)
+            for st in walk_stmts(n["body"]):
+                if "y" in st and not (st["y"] is not None and ("t" in st["y"] or "px" in st["y"])):
+                    return False
     return True
